@@ -225,8 +225,13 @@ def stepFloatTable (tbl : List (Nat × FInst F)) (factor : Rat) (typeTag : Strin
       done (put id { inst with st := st', hist := hist, last := some implOut, outs := inst.outs ++ [implOut.getD []] })
         (report d op { model := frenderOut (some y), impl := implS, clauses := clauses, kind := fkindName inst.st })
   | ["cfg", id] => do
-    let inst ← get (← id.toNat?)
-    done tbl (report d op { model := fcfgString inst.st.config, impl := implS, kind := fkindName inst.st })
+    let id ← id.toNat?
+    let inst ← get id
+    let cl : List Clause := match inst.lastCfg with
+      | some before => [{ name := "C12.config-unchanged", ok := before == implS, expected := before }]
+      | none => []
+    done (put id { inst with lastCfg := some implS })
+      (report d op { model := fcfgString inst.st.config, impl := implS, kind := fkindName inst.st, clauses := cl })
   | ["reset", id] => do
     let id ← id.toNat?
     let inst ← get id
